@@ -305,7 +305,8 @@ CaseResult run_case(Tape &t, long)
         } else {
           vt::Kid *k = kid_of(x);
           bool reader_gone = x.in_reader_gone || !k || !k->alive;
-          if (n == 0) allowed = { 0, REPROC_EPIPE };  // a zero-length write does not probe the far side
+          if (n == 0 && reader_gone) allowed = { 0, REPROC_EPIPE };  // a zero-length write does not probe the far side
+          else if (n == 0) allowed = { 0 };
           else if (reader_gone) allowed = { REPROC_EPIPE };
           else
             for (int v = 1; v <= (int) n; v++) allowed.insert(v);
